@@ -137,6 +137,14 @@ func roundTrip09(dir string, idx int, enc int, s *specs.Spec) back09 {
 	case 6:
 		_ = os.WriteFile(path, []byte("not a Spec at all: [\n"), 0o600)
 	}
+	// one case in four: what an earlier writer which failed or was killed may have left behind, longer than anything to be
+	// written: temporary files named after the Spec file, in the forms writers use (<file>.tmp, .<file>.tmp, <file>~)
+	if (idx+enc)%4 == 1 {
+		junk := []byte(strings.Repeat("left over by a writer that died: [\n", 3000))
+		for _, n := range []string{path + ".tmp", filepath.Join(dir, "."+filepath.Base(path)+".tmp"), path + "~", filepath.Join(dir, name+".tmp")} {
+			_ = os.WriteFile(n, junk, 0o600)
+		}
+	}
 	var werr error
 	p, msg := hx.Guard(func() { werr = cache.WriteSpec(s, name) })
 	if p {
